@@ -30,7 +30,9 @@ PROP = "C18"
 LEVEL = "exploration"
 TIERS = {"quick": 4800, "thorough": 160000}
 RULE = (
-    "one run = one of three machines. dsu: DisjointSetUnion(N<=60) under 5-60 union/same/find/validate steps, "
+    "one run = one of three machines (plus, in ~2% of the runs, `big`: 1500-3000 elements chained by unions in an order "
+    "that builds a deep forest unless union balances, then queried; and the checkers on a sorted neurite of that many "
+    "nodes with one late side branch). dsu: DisjointSetUnion(N<=60) under 5-60 union/same/find/validate steps, "
     "the partition read from a deep copy (so path compression by the oracle never hides history) compared with a "
     "naive partition after every step. table: a parent table over <= 14 ids under 3-30 add/set_parent/pop edits "
     "(any node may get any parent or none: forests, cycles, self-loops); after every edit is_single_root, "
@@ -51,10 +53,10 @@ COMPONENTS = {
     "replaced_leaf_functions": ["builtins.open/io.open (simulated disk + stream stack)"],
 }
 ASSUMPTIONS = [
-    "tables use ids 0..n-1, listed by id or in a generated row order (is_sorted is judged only when listed by id), every parent is -1 or an id of the table (the statement's 'every function "
+    "tables use ids base..base+n-1 (base 0, 1, 3, 100 or -20; never containing -1), listed by id or in a generated row order (is_sorted is judged only when listed by id), every parent is -1 or an id of the table (the statement's 'every function "
     "from nodes to {none} + nodes'); connected = one weakly connected component; a self-loop is a cycle",
     "is_bifurcate(exclude_root=True) is judged as 'every node that has a parent has at most two children'",
-    "in forest files the first row is the first root and carries the smallest id; other rows may carry their ids in any order; non-first roots may be anywhere; coordinates are distinct "
+    "in forest files the first row is the first root; rows may carry their ids in any order and the first root need not carry the smallest id (the id one below it then belongs to a leaf, because re-basing maps it to the no-parent marker); non-first roots may be anywhere; coordinates are distinct "
     "multiples of 0.25 so the text format is exact",
     "fix_roots=False is read with sort_nodes=False (sorting asserts a single root by contract)",
     "which node 'nearest' links a root to is not judged, only that the result is single-rooted, keeps the first "
@@ -108,7 +110,9 @@ def gen_table(w: Prng) -> dict:
             steps.append({"k": k})
     # the order in which the rows of the table are listed (ids stay 0..n-1): None = by id
     rowkeys = [w.below(1000) for _ in range(14)] if w.chance(0.4) else None
-    return {"init": init, "steps": steps, "rowkeys": rowkeys}
+    # the ids of the table are base, base+1, ...: any integers, as long as -1 (the marker) is not among them
+    idbase = w.choice([0, 0, 0, 0, 1, 3, 100, -20])
+    return {"init": init, "steps": steps, "rowkeys": rowkeys, "idbase": idbase}
 
 
 def gen_stream(rng: Prng) -> dict:
@@ -149,8 +153,26 @@ def gen_roots(w: Prng, sp: Prng) -> dict:
         "r": [0.25 * w.randint(1, 12) for _ in range(n)],
         "base": w.choice([0, 1, 1, 17, 1000]),
         # id of row i is base + sig[i]: rows need not be listed in ascending id order (row 0 keeps the base)
-        "sig": ([0] + [1 + q for q in w.permutation(n - 1)]) if w.chance(0.35) else None,
+        "sig": None,
     }
+    sk = w.weighted([("asc", 13), ("perm_keep0", 4), ("perm_any", 3)])
+    if sk == "perm_keep0":
+        forest["sig"] = [0] + [1 + q for q in w.permutation(n - 1)]
+    elif sk == "perm_any":
+        # the first listed root need not carry the smallest id (a fragment numbered before the soma)
+        sig = w.permutation(n)
+        if sig[0] > 0:
+            # re-basing on the first root sends id (root - 1) to -1, the "no parent" marker: a file in which
+            # that id is somebody's parent is ambiguous for ANY re-basing reader, so that id goes to a leaf
+            has_child = set(p for p in pid if p != -1)
+            leaves = [i for i in range(1, n) if i not in has_child]
+            holder = sig.index(sig[0] - 1)
+            if holder in has_child and leaves:
+                leaf = leaves[w.below(len(leaves))]
+                sig[holder], sig[leaf] = sig[leaf], sig[holder]
+            elif holder in has_child:
+                sig = sorted(sig)
+        forest["sig"] = sig
     reads = []
     for _ in range(w.randint(1, 4)):
         fix = w.choice([False, "somas", "nearest"])
@@ -166,10 +188,15 @@ def gen_roots(w: Prng, sp: Prng) -> dict:
 
 def generate(rng: Prng, tier: str) -> dict:
     w = rng.stream("workload")
-    mode = w.weighted([("dsu", 3), ("table", 5), ("roots", 4)])
+    mode = w.weighted([("dsu", 3), ("table", 5), ("roots", 4), ("big", 0.25)])
     p: dict = {"prop": PROP, "mode": mode, "config": "fault_free"}
     if mode == "dsu":
         p.update(gen_dsu(w))
+    elif mode == "big":
+        # thousands of elements: union histories that would build a deep forest without balancing, and the
+        # checkers on a long id-sorted neurite with one late side branch near its start
+        p.update({"n": w.choice([1500, 3000]), "pattern": w.choice(["new_first", "old_first", "pairs_then_merge"]),
+                  "branch_at": w.randint(1, 20)})
     elif mode == "table":
         p.update(gen_table(w))
     else:
@@ -189,12 +216,13 @@ class Bad(Exception):
         self.v = {"tag": tag, "op": op, "detail": str(detail)[:400]}
 
 
-def guarded(op: str, fn):
+def guarded(op: str, fn, budget: int = 0):
     """Call a library function under the step budget; a hang or an exception is a violation."""
+    budget = budget or BUDGET
     try:
-        return call_with_budget(fn, BUDGET)
+        return call_with_budget(fn, budget)
     except StepBudgetExceeded:
-        raise Bad("hang", op, f"{op} did not return within {BUDGET} line events") from None
+        raise Bad("hang", op, f"{op} did not return within {budget} line events") from None
     except Bad:
         raise
     except Exception as e:  # noqa: BLE001
@@ -255,15 +283,58 @@ def run_dsu(program: dict, world: World, out: dict):
     out["nontrivial"] = out["steps"] >= 3 and joined
 
 
-def table_checks(pid: list[int], what: str, rowkeys=None):
+def run_big(program: dict, world: World, out: dict):
+    import pandas as pd
+
+    from swcgeom.core import swc_utils
+    from swcgeom.utils import DisjointSetUnion
+
+    n = program["n"]
+    big = 400 * n + BUDGET
+    dsu = DisjointSetUnion(n)
+    pat = program["pattern"]
+    if pat == "new_first":
+        pairs = [(i, i - 1) for i in range(1, n)]
+    elif pat == "old_first":
+        pairs = [(i - 1, i) for i in range(1, n)]
+    else:
+        pairs = [(i, i + 1) for i in range(0, n - 1, 2)] + [(i, i - 1) for i in range(2, n, 2)]
+    for k, (a, b) in enumerate(pairs):
+        out["steps"] += 1
+        guarded("union_sets", lambda: dsu.union_sets(a, b), big)
+    world.log("big_dsu", n, pat)
+    for a, b in ((0, n - 1), (n // 2, 1), (n - 1, 0)):
+        got = guarded("is_same_set", lambda: dsu.is_same_set(a, b), big)
+        if not got:
+            raise Bad("dsu_wrong", "is_same_set", f"after chaining all {n} elements is_same_set({a},{b}) is False")
+    reps = guarded("find_parent", lambda: {dsu.find_parent(i) for i in range(n)}, 40 * big)
+    if len(reps) != 1:
+        raise Bad("dsu_wrong", "partition_after:union", f"{len(reps)} representatives after chaining all {n} elements")
+    # a long neurite numbered in order with one side branch attached near its start, listed last
+    pid = [-1] + list(range(0, n - 2)) + [program["branch_at"] % (n - 1)]
+    ids = np.arange(n, dtype=np.int32)
+    pids = np.array(pid, dtype=np.int32)
+    if guarded("has_cyclic", lambda: swc_utils.has_cyclic((ids, pids)), 40 * big):
+        raise Bad("checker_wrong", "has_cyclic", f"has_cyclic is True on a tree of {n} nodes")
+    if not guarded("is_sorted", lambda: swc_utils.is_sorted((ids, pids)), 40 * big):
+        raise Bad("checker_wrong", "is_sorted", f"is_sorted is False on a sorted tree of {n} nodes")
+    df = pd.DataFrame({"id": ids, "type": 3, "x": 0.0, "y": 0.0, "z": 0.0, "r": 1.0, "pid": pids})
+    if not guarded("is_single_root", lambda: swc_utils.is_single_root(df), 40 * big):
+        raise Bad("checker_wrong", "is_single_root", f"is_single_root is False on a tree of {n} nodes")
+    world.log("big_table", n, program["branch_at"])
+    out["states"].append(f"big|{n}|{pat}")
+    out["nontrivial"] = True
+
+
+def table_checks(pid: list[int], what: str, rowkeys=None, base: int = 0):
     import pandas as pd
 
     from swcgeom.core import swc_utils
 
     n = len(pid)
     order = list(range(n)) if not rowkeys else sorted(range(n), key=lambda i: (rowkeys[i % len(rowkeys)], i))
-    ids = np.array(order, dtype=np.int32)
-    pids = np.array([pid[i] for i in order], dtype=np.int32)
+    ids = np.array([i + base for i in order], dtype=np.int32)
+    pids = np.array([(-1 if pid[i] == -1 else pid[i] + base) for i in order], dtype=np.int32)
     df = pd.DataFrame({"id": ids.copy(), "type": np.zeros(n, dtype=np.int32), "x": np.zeros(n), "y": np.zeros(n),
                        "z": np.zeros(n), "r": np.ones(n), "pid": pids.copy()})
     exp = table_model.connected(pid)
@@ -294,7 +365,8 @@ def run_table(program: dict, world: World, out: dict):
     pid = list(program["init"])
     interesting = False
     rowkeys = program.get("rowkeys")
-    table_checks(pid, "init", rowkeys)
+    base = int(program.get("idbase", 0))
+    table_checks(pid, "init", rowkeys, base)
     for si, s in enumerate(program["steps"]):
         out["steps"] += 1
         k = s["k"]
@@ -323,7 +395,7 @@ def run_table(program: dict, world: World, out: dict):
         if pid.count(-1) > 1:
             world.probe("c18.table_is_forest")
             interesting = True
-        table_checks(pid, f"step {si}", rowkeys)
+        table_checks(pid, f"step {si}", rowkeys, base)
         out["states"].append("t" + ",".join(str(x) for x in pid))
     out["nontrivial"] = out["steps"] >= 3 and interesting
 
@@ -455,7 +527,7 @@ def run_roots(program: dict, world: World, out: dict):
             else:
                 op = "reset_index"
                 res = guarded(op, lambda: swc_utils.reset_index(df))
-                shift, repaired = 0, False
+                shift, repaired = -sig_of(f)[0], False
             if not df.equals(before):
                 raise Bad("input_modified", op, "the input frame was modified by the copying variant")
             judge_frame(f, frame_rows(res), op, repaired=repaired, id_shift=shift, relabelled=False)
@@ -473,6 +545,11 @@ def run_roots(program: dict, world: World, out: dict):
                 else:
                     sort = True
             reset = bool(rd["reset"]) or api == "tree"
+            if fix == "nearest" and sig_of(f)[0] > 0 and api == "read_swc" and not sort:
+                # re-basing on a first root that does not carry the smallest id maps id (root - 1) to the
+                # no-parent marker; `nearest` may make exactly that node a parent. The statement cannot mean a
+                # particular answer for an ambiguous encoding: the ids are left as they are in this case.
+                reset = False
             if api == "read_swc":
                 df, _ = guarded(op, lambda: swc_utils.read_swc(path, fix_roots=fix, sort_nodes=sort, reset_index=reset))
                 rows = frame_rows(df)
@@ -480,7 +557,7 @@ def run_roots(program: dict, world: World, out: dict):
                 t = guarded(op, lambda: Tree.from_swc(path, fix_roots=fix, sort_nodes=sort))
                 rows = {c: [v.item() for v in t.get_ndata(c)] for c in ("id", "type", "x", "y", "z", "r", "pid")}
             ws = world.take_warnings()
-            shift = None if sort else (0 if reset else b)
+            shift = None if sort else (-sig_of(f)[0] if reset else b)
             judge_frame(f, rows, op, repaired=fix is not False, id_shift=shift, relabelled=sort)
             if sort:
                 ids = [int(v) for v in rows["id"]]
@@ -502,6 +579,8 @@ def execute(program: dict) -> dict:
                 run_dsu(program, world, out)
             elif program["mode"] == "table":
                 run_table(program, world, out)
+            elif program["mode"] == "big":
+                run_big(program, world, out)
             else:
                 run_roots(program, world, out)
         except Bad as e:
@@ -538,6 +617,10 @@ def _drop_forest_row(program: dict, i: int):
 
 def shrink_candidates(program: dict):
     mode = program["mode"]
+    if mode == "big":
+        if program["n"] > 1500:
+            yield shrink.with_value(program, ["n"], 1500)
+        return
     if mode in ("dsu", "table"):
         yield from shrink.drop_from_list(program, ["steps"], min_len=1)
         if mode == "dsu":
